@@ -327,3 +327,25 @@ def term_keeps_charge(ops, sym, regsA):
                 and sum(r not in A for r in up) == sum(r not in A for r in dn))
     return True
 
+
+
+def u1u1_terms(rng, n, regsA, nterms=4):
+    """term list that conserves the occupation of each species separately (hops inside a species,
+    density terms anywhere), complex coefficients, not symmetric"""
+    regsB = [r for r in range(n) if r not in regsA]
+    terms = []
+    for _ in range(nterms):
+        kind = int(rng.integers(3))
+        blocks = [b for b in (regsA, regsB) if len(b) >= 2]
+        if kind == 0 and blocks:
+            b = blocks[int(rng.integers(len(blocks)))]
+            i, j = rng.choice(len(b), size=2, replace=False)
+            ops = [("+", int(b[i])), ("-", int(b[j]))]
+            if rng.random() < 0.5:
+                ops.append((str(rng.choice(["n", "z", "h"])), int(rng.integers(n))))
+        elif kind == 1:
+            ops = [(str(rng.choice(["n", "z", "sz", "h", "sn"])), int(r)) for r in rng.choice(n, size=min(n, 2), replace=False)]
+        else:
+            ops = [(str(rng.choice(["n", "z", "sn"])), int(rng.integers(n)))]
+        terms.append((rand_gint(rng), ops))
+    return terms
